@@ -372,11 +372,15 @@ Qed.
 
 Ltac pointwise := let x := fresh "x" in intros x; destruct x; vm_compute; auto; try discriminate.
 
+Lemma place_not_refused ks k idx io i : place ks k idx io = PInsert i -> kin k sheet_refused_kinds = false.
+Proof. unfold place. destruct (kin k sheet_refused_kinds); [discriminate | reflexivity]. Qed.
+
 Lemma place_valid ks k idx io i :
   valid_kinds ks = true -> idx <= length ks -> place ks k idx io = PInsert i ->
   i <= length ks /\ valid_kinds (insert_at i k ks) = true.
 Proof.
   intros Hv Hidx. unfold place.
+  destruct (kin k sheet_refused_kinds) eqn:Eref; [discriminate|].
   destruct (kind_beq k CHARSET_RULE) eqn:Ecs.
   { apply kind_beq_eq in Ecs. subst k.
     assert (H0 : headis CHARSET_RULE ks = false -> 0 <= length ks /\ valid_kinds (insert_at 0 CHARSET_RULE ks) = true).
@@ -477,24 +481,30 @@ Qed.
 
 Definition VS (rs : list rule) : Prop := valid_sheet rs = true.
 
-Lemma VS_intro rs : valid_kinds (kinds rs) = true -> forallb kids_ok rs = true -> VS rs.
-Proof. intros H1 H2. unfold VS, valid_sheet. now rewrite H1, H2. Qed.
+Lemma VS_intro rs : valid_kinds (kinds rs) = true -> forallb kids_ok rs = true -> norefused (kinds rs) = true -> VS rs.
+Proof. intros H1 H2 H3. unfold VS, valid_sheet. now rewrite H1, H2, H3. Qed.
 Lemma VS_elim rs : VS rs -> valid_kinds (kinds rs) = true /\ forallb kids_ok rs = true.
-Proof. unfold VS, valid_sheet. intros H. now apply andb_true_iff in H. Qed.
+Proof. unfold VS, valid_sheet. intros H. apply andb_true_iff in H as [H _]. now apply andb_true_iff in H. Qed.
+Lemma VS_nr rs : VS rs -> norefused (kinds rs) = true.
+Proof. unfold VS, valid_sheet. intros H. now apply andb_true_iff in H as [_ H]. Qed.
 
 Lemma VS_remove_at i rs : VS rs -> VS (remove_at i rs).
 Proof.
-  intros H. apply VS_elim in H as [H1 H2]. apply VS_intro.
+  intros H. pose proof (VS_nr _ H) as H3. apply VS_elim in H as [H1 H2]. apply VS_intro.
   - rewrite kinds_remove_at. now apply valid_remove_at.
   - now apply forallb_remove_at.
+  - rewrite kinds_remove_at. now apply forallb_remove_at.
 Qed.
 
 Lemma VS_remove_split a x b : VS (a ++ x :: b) -> VS (a ++ b).
 Proof.
-  intros H. apply VS_elim in H as [H1 H2]. apply VS_intro.
+  intros H. pose proof (VS_nr _ H) as H3. apply VS_elim in H as [H1 H2]. apply VS_intro.
   - rewrite kinds_app in *. simpl in H1. eapply valid_remove_split; eauto.
   - rewrite forallb_app in *. simpl in H2. apply andb_true_iff in H2 as [A B].
     apply andb_true_iff in B as [_ B]. now rewrite A, B.
+  - rewrite kinds_app in *. unfold norefused in *. rewrite forallb_app in *.
+    change (kinds (x :: b)) with (rkind x :: kinds b) in H3.
+    apply andb_true_iff in H3 as [A B]. apply forallb_skipn with (n := 1) in B. change (skipn 1 (rkind x :: kinds b)) with (kinds b) in B. now rewrite A, B.
 Qed.
 
 Lemma VS_set_head_enc rs e : VS rs -> VS (set_head_enc rs e).
@@ -557,10 +567,12 @@ Proof.
   apply norm_index_le in En.
   destruct (place (kinds rs) (rkind r) idx io) as [|i|] eqn:Ep; simpl; auto.
   - assert (Hins : VS (insert_at i r rs)).
-    { apply VS_elim in H as [H1 H2]. rewrite <- kinds_length in En.
+    { pose proof (VS_nr _ H) as H3. apply VS_elim in H as [H1 H2]. rewrite <- kinds_length in En.
       destruct (place_valid _ _ _ _ _ H1 En Ep) as [_ Hv]. apply VS_intro.
       - now rewrite kinds_insert_at.
-      - now apply forallb_insert_at. }
+      - now apply forallb_insert_at.
+      - rewrite kinds_insert_at. apply forallb_insert_at; auto.
+        now rewrite (place_not_refused _ _ _ _ _ Ep). }
     destruct (kind_beq (rkind r) NAMESPACE_RULE); auto.
     destruct (match dict_get (match simple with Some d => d | None => ns_view rs end) (rprefix r) with
               | Some u => N.eqb u (ruri r) | None => false end); auto.
@@ -598,8 +610,10 @@ Proof. unfold kids_ok, is_kind. simpl. intros -> ->. reflexivity. Qed.
 Lemma VS_map_same f rs :
   (forall r, rkind (f r) = rkind r /\ rkids (f r) = rkids r) -> VS rs -> VS (map f rs).
 Proof.
-  intros Hf H. apply VS_elim in H as [H1 H2]. apply VS_intro.
-  - unfold kinds in *. rewrite map_map. erewrite map_ext; [exact H1|]. intros a. apply Hf.
+  intros Hf H. pose proof (VS_nr _ H) as H3. apply VS_elim in H as [H1 H2].
+  assert (Ek : kinds (map f rs) = kinds rs).
+  { unfold kinds. rewrite map_map. apply map_ext. intros a. apply Hf. }
+  apply VS_intro; [now rewrite Ek | | now rewrite Ek].
   - rewrite forallb_forall in *. intros x Hx. apply in_map_iff in Hx as (y & <- & Hy).
     specialize (H2 _ Hy). destruct (Hf y) as [A B]. unfold kids_ok, is_kind in *. now rewrite A, B.
 Qed.
@@ -609,6 +623,8 @@ Proof.
   intros H. unfold parse_step.
   destruct (match parse_threshold (pkind p) with Some t => Nat.ltb t (p_expected st) | None => false end).
   { destruct rx; [discriminate|]. intros E; inversion E; subst; auto. }
+  destruct (kin (pkind p) parse_discarded_kinds).
+  { intros E; inversion E; subst; auto. }
   destruct (kind_beq (pkind p) NAMESPACE_RULE) eqn:Ens.
   { destruct (dict_get (p_ns st) (pprefix p)).
     - intros E; inversion E; subst; simpl. apply VS_map_same; auto.
@@ -722,11 +738,13 @@ Qed.
 Lemma VS_update_at rs k r r' :
   VS rs -> nth_error rs k = Some r -> rkind r' = rkind r -> kids_ok r' = true -> VS (update_at rs k r').
 Proof.
-  intros H En Hk Hr. apply VS_elim in H as [H1 H2]. apply VS_intro.
-  - unfold update_at. rewrite kinds_app.
+  intros H En Hk Hr. pose proof (VS_nr _ H) as H3. apply VS_elim in H as [H1 H2].
+  assert (Ek : kinds (update_at rs k r') = kinds rs).
+  { unfold update_at. rewrite kinds_app.
     change (kinds (r' :: skipn (S k) rs)) with (rkind r' :: kinds (skipn (S k) rs)). rewrite Hk.
     change (rkind r :: kinds (skipn (S k) rs)) with (kinds (r :: skipn (S k) rs)).
-    rewrite <- kinds_app. now rewrite (update_at_same _ _ _ En).
+    rewrite <- kinds_app. now rewrite (update_at_same _ _ _ En). }
+  apply VS_intro; [now rewrite Ek | | now rewrite Ek].
   - unfold update_at. rewrite forallb_app.
     change (forallb kids_ok (r' :: skipn (S k) rs)) with (kids_ok r' && forallb kids_ok (skipn (S k) rs)).
     now rewrite (forallb_firstn _ k rs H2), Hr, (forallb_skipn _ (S k) rs H2).
@@ -766,10 +784,10 @@ Proof.
   intros Hc H. rewrite kids_ok_container by exact Hc. simpl. now rewrite H.
 Qed.
 
-Lemma container_op_ok rx r c r' res :
+Lemma container_op_ok rx env r c r' res :
   is_container r = true -> kids_ok r = true ->
   match c with
-  | CIns src index => container_insert rx r src index
+  | CIns src index => container_insert rx env r src index
   | CDel index => container_delete r index
   | CDelObj i => if Nat.ltb i (length (rkids r)) then container_delete r (Z.of_nat i) else (r, Exc IndexSizeErr)
   | CText ks => container_text rx r ks
@@ -817,7 +835,7 @@ Proof.
     destruct (negb (is_container r)) eqn:Ec; auto. apply negb_false_iff in Ec.
     pose proof (VS_elim _ H) as [_ Hk]. pose proof (forallb_nth_error _ _ _ _ Hk En) as Hr.
     destruct (match c with CIns src index => _ | CDel index => _ | CDelObj i => _ | CText ks => _ end) as [r' res] eqn:E.
-    destruct (container_op_ok rx r c r' res Ec Hr E) as [A B]. simpl. eapply VS_update_at; eauto.
+    destruct (container_op_ok rx (ns_view rs) r c r' res Ec Hr E) as [A B]. simpl. eapply VS_update_at; eauto.
 Qed.
 
 Lemma run_VS rx ops : forall rs, Forall op_ok ops -> VS rs -> VS (run rx ops rs).
@@ -867,9 +885,9 @@ Proof.
   intros H. inversion H as [H1]. unfold clean_namespaces in H1. eapply (clean_loop_exn _ _ []). rewrite H1. reflexivity.
 Qed.
 
-Lemma container_rej rx r c r' res :
+Lemma container_rej rx env r c r' res :
   match c with
-  | CIns src index => container_insert rx r src index
+  | CIns src index => container_insert rx env r src index
   | CDel index => container_delete r index
   | CDelObj i => if Nat.ltb i (length (rkids r)) then container_delete r (Z.of_nat i) else (r, Exc IndexSizeErr)
   | CText ks => container_text rx r ks
@@ -949,7 +967,7 @@ Proof.
   - destruct (nth_error rs k) as [r|] eqn:En; [|inversion E; subst; discriminate].
     destruct (negb (is_container r)); [inversion E; subst; discriminate|].
     destruct (match c with CIns src index => _ | CDel index => _ | CDelObj i => _ | CText ks => _ end) as [r' res0] eqn:Ec.
-    inversion E; subst. rewrite (container_rej rx r c r' res Ec).
+    inversion E; subst. rewrite (container_rej rx (ns_view rs) r c r' res Ec).
     + unfold update_at. now apply update_at_same.
     + destruct res as [[v|]|x| |]; auto.
 Qed.
@@ -996,22 +1014,19 @@ Lemma len0_head acc : (Nat.eqb (length acc) 0 && headis CHARSET_RULE acc) = fals
 Proof. destruct acc; reflexivity. Qed.
 
 Lemma place_end acc k r :
-  valid_kinds (acc ++ k :: r) = true -> place acc k (length acc) false = PInsert (length acc).
+  valid_kinds (acc ++ k :: r) = true -> kin k sheet_refused_kinds = false ->
+  place acc k (length acc) false = PInsert (length acc).
 Proof.
-  intros Hv. unfold place, place_ordered. rewrite firstn_all, skipn_all, len0_head.
-  destruct k; simpl.
-  - reflexivity.
-  - reflexivity.
+  intros Hv Hr. unfold place, place_ordered. rewrite Hr, firstn_all, skipn_all, len0_head.
+  destruct k; simpl; try reflexivity; try (vm_compute in Hr; discriminate).
   - apply valid_charset_first in Hv. subst. reflexivity.
   - rewrite (le_all_anyk 1 import_before_kinds acc); auto; [pointwise | eapply valid_le_all; eauto].
-  - reflexivity.
-  - reflexivity.
-  - reflexivity.
   - rewrite (le_all_anyk 2 ns_before_kinds acc); auto; [pointwise | eapply valid_le_all; eauto].
-  - reflexivity.
-  - reflexivity.
   - rewrite (le_all_anyk 3 var_before_kinds acc); auto; [pointwise | eapply valid_le_all; eauto].
 Qed.
+
+Lemma discarded_refused k : kin k sheet_refused_kinds = false -> kin k parse_discarded_kinds = false.
+Proof. destruct k; vm_compute; auto. Qed.
 
 Definition bound (acc : list kind) : nat := if le_all 1 acc then 1 else if le_all 3 acc then 2 else 3.
 
@@ -1023,11 +1038,14 @@ Lemma bound_snoc acc k :
 Proof. unfold bound. rewrite !le_all_app. simpl. unfold le1. now rewrite !andb_true_r. Qed.
 
 Lemma accept_loop_valid ks : forall acc e,
-  valid_kinds (acc ++ ks) = true -> e <= bound acc -> (acc = [] -> e = 0) -> accept_loop acc e ks = acc ++ ks.
+  valid_kinds (acc ++ ks) = true -> norefused ks = true -> e <= bound acc -> (acc = [] -> e = 0) ->
+  accept_loop acc e ks = acc ++ ks.
 Proof.
-  induction ks as [|k r IH]; intros acc e Hv He H0; simpl.
+  induction ks as [|k r IH]; intros acc e Hv Hnr He H0; cbn [accept_loop].
   - now rewrite app_nil_r.
-  - pose proof (place_end _ _ _ Hv) as Hp.
+  - change (norefused (k :: r)) with (negb (kin k sheet_refused_kinds) && norefused r) in Hnr.
+    apply andb_true_iff in Hnr as [Hk Hnr]. apply negb_true_iff in Hk.
+    pose proof (place_end _ _ _ Hv Hk) as Hp. rewrite (discarded_refused _ Hk).
     assert (Hle : forall l, level k = Some l -> le_all l acc = true) by (intros l; eapply valid_le_all; eauto).
     assert (Hth : match parse_threshold k with Some t => Nat.ltb t e | None => false end = false).
     { destruct k; simpl; auto; apply Nat.ltb_ge.
@@ -1040,7 +1058,7 @@ Proof.
     replace (insert_at (length acc) k acc) with (acc ++ [k])
       by (unfold insert_at; now rewrite firstn_all, skipn_all).
     replace (acc ++ k :: r) with ((acc ++ [k]) ++ r) by (now rewrite <- app_assoc).
-    apply IH.
+    apply IH; auto.
     + now rewrite <- app_assoc.
     + rewrite bound_snoc. pose proof (bound_ge1 acc) as Hb. unfold bound in *.
       assert (Htr : forall x, x = Nat.max 1 e -> x <= (if le_all 1 acc then 1 else if le_all 3 acc then 2 else 3)).
@@ -1054,9 +1072,9 @@ Proof.
     + intros Hnil. destruct acc; discriminate.
 Qed.
 
-Theorem valid_reparse_main ks : valid_kinds ks = true -> accept_kinds ks = ks.
+Theorem valid_reparse_main ks : valid_kinds ks = true -> norefused ks = true -> accept_kinds ks = ks.
 Proof.
-  intros H. unfold accept_kinds. apply (accept_loop_valid ks [] 0); auto. unfold bound. simpl. lia.
+  intros H Hn. unfold accept_kinds. apply (accept_loop_valid ks [] 0); auto. unfold bound. simpl. lia.
 Qed.
 
 (* ------------------------------------------------------------------ the statement's reading of validity *)
@@ -1134,8 +1152,9 @@ Proof. intros Ho H. now apply step_VS. Qed.
 Theorem history_reparse_main rx ops :
   Forall op_ok ops -> accept_kinds (kinds (run rx ops [])) = kinds (run rx ops []).
 Proof.
-  intros H. apply valid_reparse_main. pose proof (order_invariant_main rx ops H) as Hv.
-  now apply VS_elim in Hv as [Hv _].
+  intros H. pose proof (order_invariant_main rx ops H) as Hv. apply valid_reparse_main.
+  - now apply VS_elim in Hv as [Hv _].
+  - now apply VS_nr.
 Qed.
 
 (* non-vacuity: a history whose operations are all admissible and that builds a five-rule sheet, passing through
@@ -1163,9 +1182,11 @@ Lemma demo_rejected :
   = (run true (firstn 5 demo_ops) [], Exc HierarchyRequestErr).
 Proof. vm_compute. reflexivity. Qed.
 
-Lemma demo_valid_list : valid_kinds [CHARSET_RULE; COMMENT; IMPORT_RULE; UNKNOWN_RULE; NAMESPACE_RULE; VARIABLES_RULE;
-                                     MARGIN_RULE; STYLE_RULE; COMMENT; MEDIA_RULE; PAGE_RULE; FONT_FACE_RULE] = true.
-Proof. reflexivity. Qed.
+Definition demo_list : list kind :=
+  [CHARSET_RULE; COMMENT; IMPORT_RULE; UNKNOWN_RULE; NAMESPACE_RULE; VARIABLES_RULE;
+   STYLE_RULE; COMMENT; MEDIA_RULE; PAGE_RULE; FONT_FACE_RULE].
+Lemma demo_valid_list : valid_kinds demo_list = true /\ norefused demo_list = true /\ accept_kinds demo_list = demo_list.
+Proof. repeat split; reflexivity. Qed.
 
 Lemma demo_invalid_list : accept_kinds [COMMENT; NAMESPACE_RULE; IMPORT_RULE] = [COMMENT; NAMESPACE_RULE].
 Proof. reflexivity. Qed.
